@@ -17,10 +17,13 @@
    arbitrarily with Pending anywhere, then at most one trailers block); [transport cuts pend] is
    the executable member the harness h_call implements.
 
-   Compression is not configured on either side (C05 / C01 cover it): the encoders run with
-   comp = None; the peer's grpc-encoding header is still examined by the real rule
-   (Model/Negotiate.v from_encoding_header with nothing enabled), so a grpc-encoding entry
-   smuggled in through user metadata is refused exactly as the code refuses it.
+   Each side carries its configuration ([side]): the two message size limits, the codec's
+   buffer settings and the compression settings (client: send_compressed / accept_compressed;
+   server: accept_compressed / send_compressed).  The negotiation itself is Model/Negotiate.v's
+   (from_encoding_header, from_accept_encoding_header, accept_value - C05); the theorems of C02
+   are stated for sides without compression ([plain]), the correspondence run also exercises
+   compression.  The peer's grpc-encoding header is always examined by the real rule, so a
+   grpc-encoding entry smuggled in through user metadata is refused exactly as the code does.
    One message type and codec for both directions (take a sum type for two).  Definitions only;
    proofs in Proofs/Call.v. *)
 From Verif Require Import Lib.Bytes Lib.Obs Lib.BE32 Lib.HeaderMap Model.Frame Model.Status.
@@ -40,11 +43,24 @@ Definition req_streaming (s : shape) : bool :=
 Definition resp_streaming (s : shape) : bool :=
   match s with ServerStreaming | Bidi => true | _ => false end.
 
-(* max_encoding_message_size, max_decoding_message_size, the codec's BufferSettings *)
-Record side := mkSide { max_enc : option N; max_dec : option N; buf_size : N; yield_thr : N }.
-Definition default_side : side := mkSide None None 8192 32768.
-Definition cfg_of (s : side) : Encoder.cfg encoding :=
-  Encoder.mkCfg None false (max_enc s) (buf_size s) (yield_thr s).
+(* the configuration of a client::Grpc / a server::Grpc:
+   max_encoding_message_size, max_decoding_message_size (also through
+   apply_max_message_size_config), the codec's BufferSettings,
+   send_enc    - client: send_compressed (the encoding of the request body)
+   accept_encs - accept_compressed (what may be received)
+   send_encs   - server: send_compressed (what may be chosen for the response) *)
+Record side := mkSide { max_enc : option N; max_dec : option N; buf_size : N; yield_thr : N;
+                        send_enc : option encoding; accept_encs : Negotiate.enabled;
+                        send_encs : Negotiate.enabled }.
+Definition default_side : side :=
+  mkSide None None 8192 32768 None Negotiate.en_default Negotiate.en_default.
+(* no compression configured *)
+Definition plain (s : side) : Prop :=
+  send_enc s = None /\ accept_encs s = Negotiate.en_default /\ send_encs s = Negotiate.en_default.
+(* the configuration of the EncodeBody that sends with encoding [comp] *)
+Definition cfg_with (s : side) (comp : option encoding) : Encoder.cfg encoding :=
+  Encoder.mkCfg comp false (max_enc s) (buf_size s) (yield_thr s).
+Definition cfg_of (s : side) : Encoder.cfg encoding := cfg_with s None.
 
 Definition st_missing_request : status :=
   mkStatus Code_Internal (bytes_of_string "Missing request message.") [] [].
@@ -52,7 +68,7 @@ Definition st_missing_response : status :=
   mkStatus Code_Internal (bytes_of_string "Missing response message.") [] [].
 
 (* how a drained stream ended *)
-Inductive stream_end := EndOk | EndErr (st : status) | EndHang | EndPanic.
+Inductive stream_end := EndOk | EndErr (st : status) | EndUnread | EndHang | EndPanic.
 
 Section Call.
 Variable msg : Type.
@@ -84,6 +100,7 @@ Fixpoint pull (fuel : nat) (evs : list bev) (g : bstat) (d : dec) : pulled :=
 Inductive cend :=
 | CEnd (d : dec) (evs : list bev) (g : bstat)
 | CErr (st : status) (d : dec) (evs : list bev) (g : bstat)
+| CUnread
 | CHang
 | CPanic.
 Fixpoint collect (fuel : nat) (evs : list bev) (g : bstat) (d : dec) : list msg * cend :=
@@ -99,10 +116,31 @@ Fixpoint collect (fuel : nat) (evs : list bev) (g : bstat) (d : dec) : list msg 
       | Panic => ([], CPanic)
       end
   end.
+(* a consumer that calls message() at most [j] times (a handler that answers before it has
+   read its whole request stream): CUnread = it stopped asking *)
+Fixpoint collect_n (fuel : nat) (j : nat) (evs : list bev) (g : bstat) (d : dec) {struct fuel}
+  : list msg * cend :=
+  match j with
+  | O => ([], CUnread)
+  | S j' =>
+      match fuel with
+      | O => ([], CHang)
+      | S k =>
+          let '(r, d', evs', g') := dec_poll deser decompress evs g d in
+          match r with
+          | Pending => collect_n k j evs' g' d'
+          | Item (IOk m) => let '(ms, e) := collect_n k j' evs' g' d' in (m :: ms, e)
+          | Item (IErr st) => ([], CErr st d' evs' g')
+          | Done => ([], CEnd d' evs' g')
+          | Panic => ([], CPanic)
+          end
+      end
+  end.
 Definition end_of (e : cend) : stream_end :=
   match e with
   | CEnd _ _ _ => EndOk
   | CErr st _ _ _ => EndErr st
+  | CUnread => EndUnread
   | CHang => EndHang
   | CPanic => EndPanic
   end.
@@ -117,7 +155,7 @@ Definition stream_trailers (fuel : nat) (evs : list bev) (g : bstat) (d : dec) :
       match collect fuel evs g d with
       | (_, CEnd d' _ _) => TrOk (d_trailers d')
       | (_, CErr st _ _ _) => TrErr st
-      | (_, CHang) => TrHang
+      | (_, CHang) | (_, CUnread) => TrHang
       | (_, CPanic) => TrPanic
       end
   end.
@@ -126,9 +164,17 @@ Definition stream_trailers (fuel : nat) (evs : list bev) (g : bstat) (d : dec) :
 (* GrpcConfig::prepare_request (headers; the URI is C03's) + EncodeBody::new_client.
    [src] is the caller's message stream; for the unary request shapes it is once(m), which is
    always ready: [SItem (IOk m)] *)
-Definition request_headers (md : hm) : hm := Metadata.client_request_headers None None md.
+(* None = the unwrap in into_accept_encoding_header_value *)
+Definition request_headers (cl : side) (md : hm) : option hm :=
+  let send := option_map Negotiate.as_str (send_enc cl) in
+  match Negotiate.accept_value (accept_encs cl) with
+  | Negotiate.AvPanic => None
+  | Negotiate.AvNone => Some (Metadata.client_request_headers send None md)
+  | Negotiate.AvSome v => Some (Metadata.client_request_headers send (Some v) md)
+  end.
 Definition request_frames (cl : side) (src : list sevent) : list Encoder.bframe :=
-  Encoder.frames_of (Encoder.run_body msg encoding ser compress (cfg_of cl) Encoder.Client src 0).
+  Encoder.frames_of (Encoder.run_body msg encoding ser compress (cfg_with cl (send_enc cl))
+                       Encoder.Client src 0).
 
 (* ------------------------------------------------------------------ server, receiving *)
 (* what the handler is called with, or why it is not called *)
@@ -139,18 +185,26 @@ Inductive seen :=
 | SeenPanic
 | SeenHang.
 
-Definition recv_encoding (headers : hm) : Negotiate.recv :=
-  Negotiate.from_encoding_header headers Negotiate.en_default.
+(* request_encoding_if_supported / the check at the head of create_response *)
+Definition recv_encoding (s : side) (headers : hm) : Negotiate.recv :=
+  Negotiate.from_encoding_header headers (accept_encs s).
 
-Definition server_receive (sv : side) (sh : shape) (headers : hm) (script : list bev) (fuel : nat) : seen :=
-  match recv_encoding headers with
+(* [reads]: how often the handler of a streaming-request shape calls message() before it
+   answers (None = until the stream ends) *)
+Definition server_receive (sv : side) (sh : shape) (headers : hm) (script : list bev)
+           (reads : option nat) (fuel : nat) : seen :=
+  match recv_encoding sv headers with
   | Negotiate.RecvPanic => SeenPanic
   | Negotiate.RecvErr st => SeenRejected st
   | Negotiate.RecvOk e =>
       let d0 := dec_new Request e (max_dec sv) in
       if req_streaming sh then
         (* map_request_streaming: Request::from_http; the handler pulls the messages itself *)
-        let '(ms, c) := collect fuel script (mkB 0) d0 in SeenStream headers ms (end_of c)
+        let '(ms, c) := match reads with
+                        | None => collect fuel script (mkB 0) d0
+                        | Some j => collect_n fuel j script (mkB 0) d0
+                        end in
+        SeenStream headers ms (end_of c)
       else
         (* map_request_unary *)
         match pull fuel script (mkB 0) d0 with
@@ -186,26 +240,33 @@ Definition status_response (st : status) : option wire_resp :=
   | Metadata.Panic => None
   end.
 
-(* map_response on Ok: sanitized metadata + content-type, EncodeBody::new_server *)
-Definition ok_response (sv : side) (md : hm) (src : list sevent) : option wire_resp :=
-  Some (mkWR 200 (Metadata.server_response_headers None md)
-          (Encoder.frames_of (Encoder.run_body msg encoding ser compress (cfg_of sv) Encoder.Server src 0))).
+(* accept_encoding = from_accept_encoding_header(request headers, send_compression_encodings) *)
+Definition response_encoding (sv : side) (req_headers : hm) : option encoding :=
+  Negotiate.from_accept_encoding_header req_headers (send_encs sv).
 
-Definition handler_response (sv : side) (h : hscript) : option wire_resp :=
+(* map_response on Ok: sanitized metadata + content-type (+ grpc-encoding), EncodeBody::new_server *)
+Definition ok_response (sv : side) (chosen : option encoding) (md : hm) (src : list sevent)
+  : option wire_resp :=
+  Some (mkWR 200 (Metadata.server_response_headers (option_map Negotiate.as_str chosen) md)
+          (Encoder.frames_of (Encoder.run_body msg encoding ser compress (cfg_with sv chosen)
+                                Encoder.Server src 0))).
+
+Definition handler_response (sv : side) (req_headers : hm) (h : hscript) : option wire_resp :=
+  let chosen := response_encoding sv req_headers in
   match h with
-  | HUnary (inl (md, m)) => ok_response sv md [Encoder.SItem (Encoder.IOk m)]   (* once(Ok(m)) *)
-  | HStream (inl (md, src)) => ok_response sv md src
+  | HUnary (inl (md, m)) => ok_response sv chosen md [Encoder.SItem (Encoder.IOk m)]   (* once(Ok(m)) *)
+  | HStream (inl (md, src)) => ok_response sv chosen md src
   | HUnary (inr st) | HStream (inr st) => status_response st              (* t!(response) *)
   end.
 
 (* server::Grpc::{unary, ..}: what the handler saw and what goes back; a refused request is
    answered with its status (t! / map_response(Err(status))) and the handler is not called *)
-Definition server_call (sv : side) (sh : shape) (headers : hm) (script : list bev) (h : hscript)
-           (fuel : nat) : seen * option wire_resp :=
-  let s := server_receive sv sh headers script fuel in
+Definition server_call (sv : side) (sh : shape) (headers : hm) (script : list bev)
+           (reads : option nat) (h : hscript) (fuel : nat) : seen * option wire_resp :=
+  let s := server_receive sv sh headers script reads fuel in
   (s, match s with
       | SeenRejected st => status_response st
-      | SeenUnary _ _ | SeenStream _ _ _ => handler_response sv h
+      | SeenUnary _ _ | SeenStream _ _ _ => handler_response sv headers h
       | SeenPanic | SeenHang => None
       end).
 
@@ -220,7 +281,7 @@ Inductive client_result :=
 Inductive created := CreErr (st : status) | CreStream (d : dec) | CrePanic.
 (* Grpc::create_response: encoding check, then trailers-only detection on the HEADERS *)
 Definition create_response (cl : side) (http : N) (headers : hm) : created :=
-  match recv_encoding headers with
+  match recv_encoding cl headers with
   | Negotiate.RecvPanic => CrePanic
   | Negotiate.RecvErr st => CreErr st
   | Negotiate.RecvOk e =>
@@ -282,8 +343,19 @@ Definition shape_of (n : N) : shape :=
 (* the raw codec of the harness: a message is its own serialization *)
 Definition ser_id (m : list N) : option (list N) := Some m.
 Definition deser_id (p : list N) : option (list N) := Some p.
-Definition no_compress (_ : encoding) (b : list N) : list N := b.
+(* flate2 / zstd as observed in the run: (uncompressed, compressed) pairs, see Model/Codec.v *)
+Definition compress_of (tbl : list (list N * list N)) (_ : encoding) (b : list N) : list N :=
+  match assoc_bytes tbl b with Some z => z | None => [] end.
+Definition decompress_of (tbl : list (list N * list N)) (_ : encoding) (z : list N) : option (list N) :=
+  unz tbl z.
+Definition no_compress : encoding -> list N -> list N := compress_of [].
 Definition no_decompress (_ : encoding) (b : list N) : option (list N) := Some b.
+
+(* a side as plain data: limits, then encodings by number (0 gzip, 1 deflate, 2 zstd) *)
+Definition enc_of_n (n : N) : encoding := if n =? 0 then Gzip else if n =? 1 then Deflate else Zstd.
+Definition mk_side (me md : option N) (send : option N) (accept sendset : list N) : side :=
+  mkSide me md 8192 32768 (option_map enc_of_n send)
+         (Negotiate.config_of (map enc_of_n accept)) (Negotiate.config_of (map enc_of_n sendset)).
 
 (* a stream as plain data: inl None = Pending, inl (Some m) = Ok m, inr st = Err st *)
 Definition sev_of (x : option (list N) + status) : Encoder.sevent (list N) :=
@@ -306,9 +378,18 @@ Definition hscript_of (sh : shape) (h : (hm * list (option (list N) + status)) +
   end.
 
 (* the UNIMPLEMENTED status of from_encoding_header names the offending value after this
-   prefix: cut there (as Model/Negotiate.v does), otherwise as Model/Status.v *)
+   prefix: cut there (as Model/Negotiate.v does); the size errors carry both numbers: compared
+   in full; otherwise as Model/Status.v *)
+Definition decoded_too_large_prefix : list N :=
+  Eval vm_compute in bytes_of_string "Error, decoded message length too large: ".
+(* ... and the statuses the decoder makes itself carry no text in Model/Decoder.v (only their
+   code is modelled): the text of its OUT_OF_RANGE is cut to nothing on the implementation side *)
+Definition h2_error_prefix : list N := Eval vm_compute in bytes_of_string "h2 protocol error: ".
 Definition canon_msg2 (m : list N) : list N :=
-  if is_prefix Negotiate.unsupported_msg_prefix m then Negotiate.unsupported_msg_prefix else canon_msg m.
+  if is_prefix Negotiate.unsupported_msg_prefix m then Negotiate.unsupported_msg_prefix
+  else if is_prefix h2_error_prefix m then h2_error_prefix
+  else if is_prefix decoded_too_large_prefix m then []
+  else canon_msg m.
 Definition status_obs2 (st : status) : tr :=
   Nd [Nn (st_code st); Bs (canon_msg2 (st_msg st)); Bs (st_details st); hm_canon (st_md st)].
 
@@ -316,6 +397,7 @@ Definition end_obs (e : stream_end) : tr :=
   match e with
   | EndOk => Nd [Nn 0]
   | EndErr st => Nd [Nn 1; status_obs2 st]
+  | EndUnread => Nd [Nn 2]
   | EndHang => Nd [Nn 8]
   | EndPanic => Nd [Nn 9]
   end.
@@ -336,26 +418,37 @@ Definition result_obs (r : client_result (list N)) : tr :=
   | CRHang => Nd [Nn 8]
   end.
 
-(* one whole call: caller metadata [md] and request stream [req] (for a unary request: one
-   item), the request body re-cut by (qcuts, qpend), the scripted handler [h], the response
-   body re-cut by (pcuts, ppend); observable = what the client API returned and what the
-   handler saw (Nd [Nn 9] for the response of a call whose server side panicked) *)
-Definition obs_call (shn : N) (md : hm) (req : list (option (list N) + status)) (qcuts qpend : list N)
-           (h : (hm * list (option (list N) + status)) + status) (pcuts ppend : list N) (fuel : N) : tr :=
-  let sh := shape_of shn in
+(* one whole call between client [cl] and server [sv]: caller metadata [md] and request stream
+   [req] (for a unary request: one item), the request body re-cut by (qcuts, qpend), the scripted
+   handler [h] that calls message() [reads] times (None: to the end) before it answers, the
+   response body re-cut by (pcuts, ppend); observable = what the client API returned and what
+   the handler saw (Nd [Nn 9] for the response of a call whose server side panicked) *)
+Definition call_result (tbl : list (list N * list N)) (cl sv : side) (sh : shape) (md : hm)
+           (req : list (option (list N) + status)) (qcuts qpend : list N) (reads : option N)
+           (h : (hm * list (option (list N) + status)) + status) (pcuts ppend : list N) (fuel : N)
+  : option (client_result (list N)) * seen (list N) :=
   let f := N.to_nat fuel in
-  let qframes := request_frames (list N) ser_id no_compress default_side (map sev_of req) in
-  let qscript := transport qcuts qpend qframes in
-  let '(s, resp) := server_call (list N) ser_id deser_id no_compress no_decompress default_side sh
-                      (request_headers md) qscript (hscript_of sh h) f in
-  match resp with
-  | None => Nd [Nd [Nn 9]; seen_obs s]
-  | Some w =>
-      let pscript := transport pcuts ppend (wr_frames w) in
-      Nd [result_obs (client_call (list N) deser_id no_decompress default_side sh (wr_http w)
-                        (wr_headers w) pscript f);
-          seen_obs s]
+  match request_headers cl md with
+  | None => (Some CRPanic, SeenPanic)
+  | Some qh =>
+      let qframes := request_frames (list N) ser_id (compress_of tbl) cl (map sev_of req) in
+      let qscript := transport qcuts qpend qframes in
+      let '(s, resp) := server_call (list N) ser_id deser_id (compress_of tbl) (decompress_of tbl) sv sh
+                          qh qscript (option_map N.to_nat reads) (hscript_of sh h) f in
+      match resp with
+      | None => (None, s)
+      | Some w =>
+          let pscript := transport pcuts ppend (wr_frames w) in
+          (Some (client_call (list N) deser_id (decompress_of tbl) cl sh (wr_http w)
+                   (wr_headers w) pscript f), s)
+      end
   end.
+
+Definition obs_call (tbl : list (list N * list N)) (cl sv : side) (shn : N) (md : hm)
+           (req : list (option (list N) + status)) (qcuts qpend : list N) (reads : option N)
+           (h : (hm * list (option (list N) + status)) + status) (pcuts ppend : list N) (fuel : N) : tr :=
+  let '(r, s) := call_result tbl cl sv (shape_of shn) md req qcuts qpend reads h pcuts ppend fuel in
+  Nd [match r with Some r => result_obs r | None => Nd [Nn 9] end; seen_obs s].
 
 (* the same call over a real HTTP/2 connection (kinds h2): the schedule is not controlled, so
    only the final observable is compared, and hyper adds headers of its own (date, ...), so
@@ -380,18 +473,55 @@ Definition restrict_seen (keys : list hname) (s : seen (list N)) : seen (list N)
   | _ => s
   end.
 
-Definition obs_call_h2 (keys : list hname) (shn : N) (md : hm) (req : list (option (list N) + status))
-           (h : (hm * list (option (list N) + status)) + status) (fuel : N) : tr :=
-  let sh := shape_of shn in
-  let f := N.to_nat fuel in
-  let qframes := request_frames (list N) ser_id no_compress default_side (map sev_of req) in
-  let '(s, resp) := server_call (list N) ser_id deser_id no_compress no_decompress default_side sh
-                      (request_headers md) (transport [] [] qframes) (hscript_of sh h) f in
-  match resp with
-  | None => Nd [Nd [Nn 9]; seen_obs (restrict_seen keys s)]
-  | Some w =>
-      Nd [result_obs (restrict_result keys
-                        (client_call (list N) deser_id no_decompress default_side sh (wr_http w)
-                           (wr_headers w) (transport [] [] (wr_frames w)) f));
-          seen_obs (restrict_seen keys s)]
+(* ---- what a real HTTP/2 connection does with an ERROR of the request body (F-C06b) ----
+   hyper resets the stream (RST_STREAM, INTERNAL_ERROR = 2).  Observed on hyper 1.x / h2 0.4:
+   the server's reader gets the reset as the error of the request body and none of the DATA that
+   was sent before it; the caller's future fails with hyper's error, which Status::from_error
+   maps through the h2 reason (Model/Status.v reset_stream_code) - the Status the body failed
+   with (OUT_OF_RANGE for a message over max_encoding_message_size) is not in that error's
+   source chain and never reaches the caller. *)
+Definition H2_INTERNAL_ERROR : N := 2.
+Definition st_stream_reset : status :=
+  mkStatus (reset_stream_code H2_INTERNAL_ERROR) h2_error_prefix [] [].
+Fixpoint body_error (frames : list Encoder.bframe) : option status :=
+  match frames with
+  | [] => None
+  | Encoder.FErr st :: _ => Some st
+  | _ :: r => body_error r
   end.
+(* the request body as the server reads it over a real connection (no re-cutting: kinds h2) *)
+Definition real_request_script (frames : list Encoder.bframe) : list bev :=
+  match body_error frames with
+  | Some _ => [BErr st_stream_reset]
+  | None => transport [] [] frames
+  end.
+
+Definition call_result_h2 (tbl : list (list N * list N)) (cl sv : side) (sh : shape) (md : hm)
+           (req : list (option (list N) + status)) (reads : option N)
+           (h : (hm * list (option (list N) + status)) + status) (fuel : N)
+  : option (client_result (list N)) * seen (list N) :=
+  let f := N.to_nat fuel in
+  match request_headers cl md with
+  | None => (Some CRPanic, SeenPanic)
+  | Some qh =>
+      let qframes := request_frames (list N) ser_id (compress_of tbl) cl (map sev_of req) in
+      let '(s, resp) := server_call (list N) ser_id deser_id (compress_of tbl) (decompress_of tbl) sv sh
+                          qh (real_request_script qframes) (option_map N.to_nat reads) (hscript_of sh h) f in
+      match body_error qframes with
+      | Some _ => (Some (CRErr st_stream_reset), s)      (* the call fails with the reset *)
+      | None =>
+          match resp with
+          | None => (None, s)
+          | Some w =>
+              (Some (client_call (list N) deser_id (decompress_of tbl) cl sh (wr_http w)
+                       (wr_headers w) (transport [] [] (wr_frames w)) f), s)
+          end
+      end
+  end.
+
+Definition obs_call_h2 (keys : list hname) (tbl : list (list N * list N)) (cl sv : side) (shn : N)
+           (md : hm) (req : list (option (list N) + status)) (reads : option N)
+           (h : (hm * list (option (list N) + status)) + status) (fuel : N) : tr :=
+  let '(r, s) := call_result_h2 tbl cl sv (shape_of shn) md req reads h fuel in
+  Nd [match r with Some r => result_obs (restrict_result keys r) | None => Nd [Nn 9] end;
+      seen_obs (restrict_seen keys s)].
